@@ -165,9 +165,41 @@ class Stats:
         }
 
 
+CASE_TIMEOUT_S = int(os.environ.get("VF_CASE_TIMEOUT", "30"))
+_TIMEOUT_VIOLATION = None
+
+
+class CaseTimeout(BaseException):
+    pass
+
+
+def _alarm(signum, frame):
+    raise CaseTimeout()
+
+
 def _run_one(mod, case, stats: Stats, open_ids) -> Result:
+    """One case, under a watchdog.  Ordinary cases take milliseconds; a case still running after CASE_TIMEOUT_S seconds
+    means the code under test does not terminate on it - that is reported as a violation (it is not a budget limit)."""
+    import signal
+
+    global _TIMEOUT_VIOLATION
+    if _TIMEOUT_VIOLATION is not None:
+        # a case already hung in this shard: do not let the shrinker re-run hanging cases for minutes, fail fast instead
+        res = Result(ok=False, msg=_TIMEOUT_VIOLATION["msg"], sample=case)
+        stats.record(case, res)
+        return res
     reset_state()
-    res = mod.check(case)
+    old_handler = signal.signal(signal.SIGALRM, _alarm)
+    signal.alarm(CASE_TIMEOUT_S)
+    try:
+        res = mod.check(case)
+    except CaseTimeout:
+        res = Result(ok=False, sample=case,
+                     msg=f"the case did not finish within {CASE_TIMEOUT_S} s (ordinary cases take milliseconds): the code under test does not terminate")
+        _TIMEOUT_VIOLATION = {"case": case, "msg": res.msg}
+    finally:
+        signal.alarm(0)
+        signal.signal(signal.SIGALRM, old_handler)
     if not res.ok:
         fid = classify_known(mod, case, res, open_ids)
         if fid is not None:
@@ -238,6 +270,8 @@ def run_shard(args):
                     raise
     except Exception:
         out["error"] = traceback.format_exc()
+    if _TIMEOUT_VIOLATION is not None:
+        out["violations"] = [_TIMEOUT_VIOLATION]  # the case that actually hung, not what the shrinker ended with
     out["stats"] = stats.dump()
     out["wall_s"] = time.time() - t0
     return out
